@@ -953,7 +953,16 @@ class _GenerateRenderMethod:
             # derived template, buffered or not: write what it returns
             call = "__M_writer(%s)"
             nameargs = node.get_argument_expressions(as_call=True)
-            nameargs += ["**pageargs"]
+            pagetag = self.compiler.pagetag
+            if (
+                not self.in_def
+                and pagetag is not None
+                and pagetag.body_decl.kwargs
+            ):
+                # the body's own ** argument takes the place of pageargs
+                nameargs += ["**" + pagetag.body_decl.kwargs.arg]
+            else:
+                nameargs += ["**pageargs"]
             self.printer.writeline(
                 "if 'parent' not in context._data or "
                 "not hasattr(context._data['parent'], '%s'):" % node.funcname
